@@ -63,7 +63,9 @@ partial def debugVal : Val → String
   | .adt c [] [] => c
   | .adt c [] vals => c ++ "(" ++ ", ".intercalate (vals.map debugVal) ++ ")"
   | .adt c names vals =>
-    c ++ " { " ++ ", ".intercalate ((names.zip vals).map fun (n, v) => n ++ ": " ++ debugVal v) ++ " }"
+    -- `derive(Debug)` prints a raw-identifier field (`r#type`) without its `r#`
+    c ++ " { " ++ ", ".intercalate ((names.zip vals).map fun (n, v) =>
+      (if n.startsWith "r#" then (n.drop 2).toString else n) ++ ": " ++ debugVal v) ++ " }"
   | .seq vs => "[" ++ ", ".intercalate (vs.map debugVal) ++ "]"
   | .setv vs => "{" ++ ", ".intercalate (vs.map debugVal) ++ "}"
   | .map ks vs => "{" ++ ", ".intercalate ((ks.zip vs).map fun (k, v) => debugVal k ++ ": " ++ debugVal v) ++ "}"
